@@ -239,15 +239,20 @@ ApplyRemoveEnd(s, lru) ==
     ELSE LET i == IF lru THEN 1 ELSE Len(s.ord) IN RemoveAtIdx(s, i, RSomeKV(s.ord[i]))
 
 (* mutate(k, f) where f sets the value's heap size to nvs.  The closure    *)
-(* runs iff the key is present (ret.seq = <<k>>).                          *)
+(* runs iff the key is present (ret.seq = <<k>>).  Afterwards the entry is  *)
+(* measured anew (key heap + value heap + Overhead) and compared with the   *)
+(* size RECORDED for it - not with a value size measured before the call:   *)
+(* after a panic inside an earlier mutate of this entry the record may lag  *)
+(* behind the value, and this call brings it up to date again.              *)
 ApplyMutate(s, k, nvs) ==
     LET i == Pos(s.ord, k) IN
     IF i = 0 THEN Same(s, RTag("OkNone"), 2)
     ELSE
-    LET e == s.ord[i] IN
-    IF nvs > e.vs
-    THEN LET diff == nvs - e.vs
-             nes  == e.rec + diff
+    LET e   == s.ord[i]
+        nes == e.kh + nvs + Overhead
+    IN
+    IF nes > e.rec
+    THEN LET diff == nes - e.rec
          IN IF UGt(nes, s.max)
             THEN { Outcome([s EXCEPT !.ord = DropAt(s.ord, i), !.cur = s.cur - e.rec,
                                      !.t = t1],
@@ -263,8 +268,8 @@ ApplyMutate(s, k, nvs) ==
                               Ret("OkSome", 0, 0, 0, NoM, RM, 0, <<k>>),
                               ev, MarkersOf(ev), 0, 2 + n, FALSE, FALSE)
                       : t1 \in TombAfter(s, n) }
-    ELSE LET diff == e.vs - nvs
-             o1   == Append(DropAt(s.ord, i), [e EXCEPT !.vs = nvs, !.rec = e.rec - diff])
+    ELSE LET diff == e.rec - nes
+             o1   == Append(DropAt(s.ord, i), [e EXCEPT !.vs = nvs, !.rec = nes])
          IN Same([s EXCEPT !.ord = o1, !.cur = s.cur - diff],
                  Ret("OkSome", 0, 0, 0, NoM, RM, 0, <<k>>), 2)
 
@@ -472,7 +477,7 @@ C02_Step(s, a, x) ==
     /\ (a.op \in {"remove", "remove_entry"} /\ Present(s, a.k))
           => x.s.cur = s.cur - EntOf(s, a.k).rec
     /\ (a.op = "mutate" /\ x.ret.tag = "OkSome" /\ x.ev = <<>>)
-          => x.s.cur = s.cur + (a.vs - EntOf(s, a.k).vs)
+          => x.s.cur = s.cur + (EntOf(s, a.k).kh + a.vs + Overhead - EntOf(s, a.k).rec)
     /\ (a.op \in {"clear", "drain"}) => (x.s.cur = 0 /\ x.s.ord = <<>>)
 
 (* keys whose removal the caller asked for *)
@@ -601,9 +606,9 @@ C11_Step(s, a, x) ==
     THEN x.ret.tag = "OkNone" /\ x.ret.seq = <<>> /\ x.s = s
     ELSE LET i   == Pos(s.ord, a.k)
              e   == s.ord[i]
-             new == e.rec + (a.vs - e.vs)
+             new == e.kh + a.vs + Overhead      \* the entry's size, measured anew
          IN /\ x.ret.seq = <<a.k>>
-            /\ IF a.vs > e.vs /\ UGt(new, s.max)
+            /\ IF new > e.rec /\ UGt(new, s.max)
                THEN /\ x.ret.tag = "EntryTooLarge"
                     /\ x.ret.a = e.rec /\ x.ret.b = new /\ x.ret.c = s.max
                     /\ x.ret.key = MK(a.k) /\ x.ret.val = MV(a.k) /\ x.ret.d = a.vs
@@ -613,7 +618,7 @@ C11_Step(s, a, x) ==
                ELSE /\ x.ret.tag = "OkSome" /\ x.ret.val = RM
                     /\ Present(x.s, a.k)
                     /\ x.s.ord[Len(x.s.ord)] = [e EXCEPT !.vs = a.vs, !.rec = new]
-                    /\ (a.vs <= e.vs => x.ev = <<>>)
+                    /\ (new <= e.rec => x.ev = <<>>)
 
 (* C12: iterator runs *)
 C12_Step(s, a, x) ==
